@@ -13,6 +13,124 @@ func init() {
 		"active-interval-contains-now-in-local-zone-only", "mute-interval-with-location-contains-now"} {
 		register("C15", k, c15Scenario)
 	}
+	register("C15", "muted-state-in-api-follows-reloads", c15Reloads)
+}
+
+// c15Reloads: the group's muted state as GET /api/v2/alerts/groups reports it must follow the flushes across
+// configuration reloads. A sequence of configurations, each applied by a (successful) reload, in which the present
+// instant is: inside mute interval tiA / inside tiB / outside both / outside the route's only active interval.
+// Consecutive states differ, so the first flush after every reload has a muted state unlike the one before the
+// reload; after it the API must report exactly the names that gate the present instant (none when not gated), and
+// the notification must go out exactly in the ungated states.
+func c15Reloads(s *sc) {
+	now := time.Now()
+	near, far := rangesAround(now), rangesAround(now.Add(12*time.Hour))
+	type state struct {
+		name   string
+		a, b   [][2]string
+		mute   []string
+		active []string
+		want   []string
+	}
+	states := []state{
+		{"inside mute interval tiA", near, far, []string{"tiA", "tiB"}, nil, []string{"tiA"}},
+		{"inside mute interval tiB", far, near, []string{"tiA", "tiB"}, nil, []string{"tiB"}},
+		{"outside every interval", far, far, []string{"tiA", "tiB"}, nil, nil},
+		{"outside the only active interval tiA", far, far, []string{"tiB"}, []string{"tiA"}, []string{"tiA"}},
+		{"inside active interval tiA, no mute interval applies", near, far, []string{"tiB"}, []string{"tiA"}, nil},
+	}
+	// a random walk over the states without repeating the muted-by answer
+	n := 4
+	if cp(s.c, "thorough", 0) == 1 {
+		n = 6
+	}
+	var seq []state
+	for len(seq) < n {
+		st := states[s.r.Intn(len(states))]
+		if len(seq) > 0 && strings.Join(seq[len(seq)-1].want, ",") == strings.Join(st.want, ",") {
+			continue
+		}
+		seq = append(seq, st)
+	}
+	mkConf := func(st state) Conf {
+		return Conf{
+			Root: Route{Receiver: "r0", GroupBy: []string{"id"}, GW: gw, GI: gi, RI: time.Hour,
+				Routes: []Route{{Receiver: "r0", Matchers: []string{`grp="m"`}, Mute: st.mute, Active: st.active}}},
+			Receivers: []Recv{{Name: "r0", Hooks: []Hook{{SendResolved: false}}}},
+			Intervals: []Interval{{Name: "tiA", Times: st.a}, {Name: "tiB", Times: st.b}},
+			MuteStyle: false,
+			Comment:   st.name,
+		}
+	}
+	in, err := s.instance(nil)
+	s.must(err, "instance")
+	end := now.Add(10 * time.Minute)
+	for i, st := range seq {
+		s.must(in.WriteConfig(mkConf(st).YAML(in.Sink)), "write config")
+		var t0 time.Time
+		if i == 0 {
+			s.must(in.Start(), "start")
+			t0 = time.Now()
+			_, err = in.PostAlerts([]AlertIn{{Labels: map[string]string{"alertname": "A", "grp": "m", "id": "m1"}, EndsAt: &end}})
+			s.must(err, "post alert")
+		} else {
+			if err := in.Reload(); err != nil {
+				s.violate("valid-reload-rejected", "Reload failed: %v", err)
+				return
+			}
+			t0 = time.Now()
+		}
+		phase := "configuration " + string(rune('1'+i)) + " (" + st.name + ")"
+		nBefore := len(in.Sink.Reqs())
+		is := func(_ string, mb []string) bool { return strings.Join(mb, ",") == strings.Join(st.want, ",") }
+		// the group's first flush under this configuration comes group_wait after the (re)start of the dispatcher
+		if len(st.want) == 0 {
+			// ungated: the notification tells that the flush has happened; only then is the API view judged
+			sent := func(reqs []Req) bool { return len(reqs) > nBefore }
+			if !in.Sink.WaitFor(t0.Add(gw+slack), sent) {
+				if in.Sink.WaitFor(t0.Add(gw+slack+late), sent) {
+					s.inconclusive("%s: notification later than group_wait+%s", phase, slack)
+					return
+				}
+				s.violate("ungated-flush-not-notified", "%s: no interval gates the present instant and the group was not notified within group_wait+%s", phase, slack+late)
+				return
+			}
+		}
+		stt, mb, ok := mutedByOf(s, in, "m1", t0.Add(gw+slack), is)
+		if !ok {
+			stt, mb, ok = mutedByOf(s, in, "m1", t0.Add(gw+slack+late), is)
+			if ok {
+				s.inconclusive("%s: the grouped view showed the new state later than group_wait+%s", phase, slack)
+				return
+			}
+			s.violate("muted-state-in-api-does-not-follow-the-flush", "%s, applied by a reload: %s after it GET /api/v2/alerts/groups reports mutedBy=%v (state %s) for the group; the flush under this configuration is gated by %v", phase, (gw + slack + late).String(), mb, stt, st.want)
+			return
+		}
+		wantState := "active"
+		if len(st.want) > 0 {
+			wantState = "suppressed"
+		}
+		if stt != wantState {
+			s.violate("muted-group-state-wrong", "%s: mutedBy=%v but state=%s, want %s", phase, mb, stt, wantState)
+			return
+		}
+		if len(st.want) > 0 {
+			// gated: let one more group_interval pass; nothing may have been sent under this configuration
+			time.Sleep(gi + 300*time.Millisecond)
+			for _, r := range in.Sink.Reqs()[nBefore:] {
+				if r.T.After(t0.Add(200 * time.Millisecond)) {
+					s.violate("gated-flush-notified", "%s: the group was notified %.2fs after the configuration was applied", phase, r.T.Sub(t0).Seconds())
+					return
+				}
+			}
+			if _, mb2, _ := mutedByOf(s, in, "m1", time.Now(), is); strings.Join(mb2, ",") != strings.Join(st.want, ",") {
+				s.violate("muted-state-in-api-does-not-follow-the-flush", "%s: after a further flush the API reports mutedBy=%v, want %v", phase, mb2, st.want)
+				return
+			}
+		}
+		s.logf("%s: mutedBy=%v state=%s", phase, mb, stt)
+		s.count("state-after-reload-judged")
+	}
 }
 
 var c15Zone sync.Once
